@@ -65,7 +65,8 @@ def node_schedule(res, node):
 class Run(object):
     """One check run: accumulates batches, verdicts and coverage numbers."""
 
-    def __init__(self, prop, tier, clauses, module="Trace"):
+    def __init__(self, prop, tier, clauses, module="Trace", conform=False, conform_budget=None):
+        self.conform, self.conform_budget, self.conform_nodes = conform, conform_budget, 0
         self.prop, self.tier, self.clauses, self.module = prop, tier, tuple(clauses), module
         self.t0 = time.time()
         self.seed = seed()
@@ -177,14 +178,33 @@ class Run(object):
             batches.append(batch)
         for bi, b in enumerate(batches):
             path = os.path.join(self.tmp, "batch_%d_%d.json" % (base, bi))
+            own = sorted({c[:3] for c in self.clauses})
+            known = sorted({k["signature"] for k in load_known_findings() if k.get("status", "open") == "open"})
+            for r in b:
+                r["tree"]["own"] = own
+                r["tree"]["known"] = known
             with open(path, "w") as f:
                 json.dump([r["tree"] for r in b], f, separators=(",", ":"))
             res = tlc.run(self.module, env={"TRACE_FILE": path}, workers=tlc_workers, timeout=1500,
                           workdir=self.tmp)
+            if self.conform and (self.conform_budget is None or self.conform_nodes < self.conform_budget):
+                cres = tlc.run("Conform", env={"TRACE_FILE": path}, workers=tlc_workers, timeout=1500, workdir=self.tmp)
+                nb = sum(len(r["tree"]["nodes"]) for r in b)
+                if cres["rc"] != 0 or cres["distinct"] != nb + len(b):
+                    self.machinery.append("conform tlc rc=%s distinct=%s expected=%s\n%s" % (
+                        cres["rc"], cres["distinct"], nb + len(b), cres["out"][-3000:]))
+                ds = tlc.verdicts(cres["out"], "D")
+                self.divergences += len(ds)
+                self.conform_nodes += nb
+                for dv in ds[:3]:
+                    rr = [r for r in b if r["tree"]["tid"] == dv[1]]
+                    if rr:
+                        self.extra.setdefault("divergence_samples", []).append(
+                            {"def": rr[0]["d"]["name"], "field": dv[3], "schedule": node_schedule(rr[0], dv[2])})
             os.unlink(path)
             vs = tlc.verdicts(res["out"], "V")
             ks = tlc.verdicts(res["out"], "K")
-            expected = self._expected_states(b, vs)
+            expected = self._expected_states(b, [v for v in vs if v[3][:3] in own] + ks)
             if res["rc"] != 0 or res["distinct"] != expected:
                 self.machinery.append("tlc rc=%s distinct=%s expected=%s\n%s" % (
                     res["rc"], res["distinct"], expected, res["out"][-3000:]))
@@ -321,6 +341,7 @@ class Run(object):
             "states": self.states + self.mc_states, "transitions": self.transitions + self.mc_transitions,
             "spec_b_states": self.mc_states, "trace_validation_states": self.states,
             "spec_vs_code_divergences": self.divergences,
+            "steps_conformance_checked": self.conform_nodes,
             "traces_validated_against_impl": self.trees + sum(len(g["members"]) for g in self.groups),
             "groups_validated": len(self.groups),
             "steps_validated_against_impl": self.nodes,
